@@ -57,9 +57,14 @@ def build(rng):
     changed_running = False
     cycles = 0
     hopped = False
+    hot_srv = rng.randrange(len(SERVERS))  # most requests of a scenario concern one server: sequences for ONE peer matter
+    forced = None
     for _ in range(rng.randrange(3, 31)):
         pl = rng.choice(("new", "new", "same", "same", "d-eps", "d:before", "d:after", "d+eps", "d:after+1", "d:after+2", "d:after+3", "same+1", "d-res"))
+        if forced is not None and not hopped:
+            pl = "same"
         if hopped:
+            forced = None
             pl = "new"  # nothing else in the instant of a hopped request: keeps the script order equal to the execution order
         hops = 0
         if "+" in pl and pl != "d+eps":
@@ -85,7 +90,14 @@ def build(rng):
             if t < now or 0 < t - now < 4 * RES or (t == now and script and script[-1][1] == AFTER and rank == BEFORE):
                 t, rank, pl = now + 0.125, BEFORE, "new"
         r = rng.random()
-        if r < 0.2:
+        if forced is not None:
+            # stop-subscribe directly followed by subscribe of the same eventgroup at the same server, in one loop iteration
+            pair, forced = forced, None
+            a = dict(kind="sub", eg=pair[0], srv=pair[1])
+            requested.add(pair)
+            if running:
+                changed_running = True
+        elif r < 0.2:
             a = dict(kind="stop" if running else "start")
             if running:
                 running = False
@@ -93,10 +105,12 @@ def build(rng):
                 running, last_start = True, t
                 cycles += 1
         else:
-            pair = (rng.randrange(len(EGS)), rng.randrange(len(SERVERS)))
+            pair = (rng.randrange(len(EGS)), hot_srv if rng.random() < 0.55 else rng.randrange(len(SERVERS)))
             if pair in requested:
                 a = dict(kind="unsub", eg=pair[0], srv=pair[1])
                 requested.discard(pair)
+                if rng.random() < 0.35:
+                    forced = pair
             elif rng.random() < 0.1:
                 a = dict(kind="unsub", eg=pair[0], srv=pair[1])  # stop-subscribe of something not requested
             else:
